@@ -711,6 +711,125 @@ func (m *Model) ruleEVT1(r *Results) {
 	if n == 0 {
 		r.undecided(rule, "post call sites", "-", "the post function is never called")
 	}
+	// An event stands for a write: a transaction closure that has produced one (returned it, or
+	// assigned it to the variable its caller posts from) does not report success on a path that
+	// executed no document write.
+	writes := map[*ssa.Function]bool{}
+	m.eachStmt(false, func(s *SQLSite, v *Variant, st *sqlp.Stmt) {
+		if st.Kind == sqlp.SSelect {
+			return
+		}
+		for _, t := range st.Tables() {
+			if t == "documents" {
+				writes[s.Fn] = true
+				if s.Helper != nil {
+					writes[s.Helper] = true
+				}
+			}
+		}
+	})
+	seenK := map[*ssa.Function]bool{}
+	nk := 0
+	for _, tc := range m.txnClosures() {
+		K := tc.Fn
+		if seenK[K] || len(K.Blocks) == 0 || K == a.AllocClos || (a.Allocator != nil && rootOf(K) == a.Allocator) {
+			continue // (the allocator's own closure gets its event from the write callback)
+		}
+		seenK[K] = true
+		isEvtPtr := func(t types.Type) bool {
+			pt, ok := t.(*types.Pointer)
+			return ok && a.EventType != nil && pt.Elem() == types.Type(a.EventType)
+		}
+		// where the closure commits itself to an event
+		var made []ssa.Instruction
+		for _, b := range K.Blocks {
+			for _, ins := range b.Instrs {
+				switch x := ins.(type) {
+				case *ssa.Store:
+					if _, ok := x.Addr.(*ssa.FreeVar); ok && isEvtPtr(x.Val.Type()) && !isNilConst(x.Val) {
+						made = append(made, x)
+					}
+				case *ssa.Return:
+					if tc.Kind == "alloc" && len(x.Results) == 2 && isEvtPtr(x.Results[0].Type()) && !isNilConst(x.Results[0]) {
+						made = append(made, x)
+					}
+				}
+			}
+		}
+		if len(made) == 0 {
+			continue
+		}
+		nk++
+		c := newCut()
+		m.eachCall(K, func(call ssa.CallInstruction) {
+			if _, isDefer := call.(*ssa.Defer); isDefer {
+				return
+			}
+			hit := false
+			for _, s := range m.Sites {
+				if s.Call == call && writes[s.Fn] {
+					for _, v := range s.Variants {
+						for _, st := range v.Stmts {
+							if st.Kind != sqlp.SSelect {
+								hit = true
+							}
+						}
+					}
+				}
+			}
+			if f := call.Common().StaticCallee(); f != nil && m.inPkg(f) {
+				for g := range m.reachableLocal(f) {
+					if writes[g] {
+						hit = true
+					}
+				}
+			}
+			if hit {
+				c.cutBlock(call.Block())
+			}
+		})
+		// edges on which an error is known to be non-nil
+		for _, iff := range allIfs(K) {
+			cd := condOf(iff)
+			eq, ok := cd.equalEdge()
+			if !ok || !(isNilConst(cd.X) || isNilConst(cd.Y)) {
+				continue
+			}
+			other := cd.X
+			if isNilConst(cd.X) {
+				other = cd.Y
+			}
+			if !isErrorType(other.Type()) {
+				continue
+			}
+			for _, s := range iff.Block().Succs {
+				if s != eq {
+					c.cutEdge(iff.Block(), s)
+				}
+			}
+		}
+		reach := entryReach(K, c)
+		bad := ""
+		for _, mk := range made {
+			if !reach[mk.Block().Index] {
+				continue
+			}
+			from := reachableFrom(mk.Block(), c)
+			for _, ret := range returnsOf(K) {
+				if ret.Block() != mk.Block() && !from[ret.Block().Index] {
+					continue
+				}
+				if m.mustBeFailureReturn(ret) {
+					continue
+				}
+				bad = m.instrPos(ret)
+			}
+		}
+		r.check(bad == "", rule, m.declName(K)+" / an event is produced only by a path that wrote", m.pos(K.Pos()), "every return that may report success with an event lies behind a document write", "the transaction closure can report success at "+bad+" with an event produced but no document write executed on the path: the feeds are told of a mutation (with a CAS) that no row carries")
+	}
+	if nk == 0 {
+		r.undecided(rule, "event-producing closures", "-", "no transaction closure produces an event")
+	}
 	r.floor(rule, 4)
 }
 
@@ -966,11 +1085,19 @@ func (m *Model) isQueueMethod(fn *ssa.Function, role string) bool {
 		return false
 	}
 	calls := map[string]bool{}
-	m.eachCall(fn, func(c ssa.CallInstruction) {
-		if f := c.Common().StaticCallee(); f != nil && f.Pkg != nil {
-			calls[f.Pkg.Pkg.Path()+"."+f.Name()] = true
+	var gather func(g *ssa.Function)
+	gather = func(g *ssa.Function) {
+		m.eachCall(g, func(c ssa.CallInstruction) {
+			if f := c.Common().StaticCallee(); f != nil && f.Pkg != nil {
+				calls[f.Pkg.Pkg.Path()+"."+f.Name()] = true
+			}
+		})
+		// (the body may sit in a closure handed to a lock helper)
+		for _, an := range g.AnonFuncs {
+			gather(an)
 		}
-	})
+	}
+	gather(fn)
 	switch role {
 	case "push":
 		return calls["container/list.PushFront"] || calls["container/list.PushBack"]
@@ -1019,8 +1146,47 @@ func (m *Model) ruleQUEUE(r *Results) {
 		r.undecided(rule, "queue methods", "-", "expected one push, one pull and one close method on the queue type; found %d/%d/%d", len(push), len(pull), len(cls))
 		return
 	}
+	// a method whose body is a closure run by a lock helper (`q.withLock(func() {...})`) is
+	// judged by that closure, which starts with the lock held
+	wrapped := map[*ssa.Function]bool{}
+	for _, lst := range []*[]*ssa.Function{&push, &pull, &cls} {
+		fn := (*lst)[0]
+		var body *ssa.Function
+		nPkgCalls := 0
+		m.eachCall(fn, func(c ssa.CallInstruction) {
+			g := c.Common().StaticCallee()
+			if g == nil || !m.inPkg(g) {
+				return
+			}
+			nPkgCalls++
+			acq, rel := false, false
+			m.eachCall(g, func(c2 ssa.CallInstruction) {
+				if op, ok := m.lockOpOf(c2); ok {
+					if op.Acquire {
+						acq = true
+					} else {
+						rel = true
+					}
+				}
+			})
+			for i, a := range c.Common().Args {
+				if mc, ok := a.(*ssa.MakeClosure); ok && acq && rel && i < len(g.Params) && m.invokesParam(g, i, 0) {
+					if cf, ok := mc.Fn.(*ssa.Function); ok && cf.Parent() == fn {
+						body = cf
+					}
+				}
+			}
+		})
+		if body != nil && nPkgCalls == 1 {
+			(*lst)[0] = body
+			wrapped[body] = true
+		}
+	}
 	listCalls := func(fn *ssa.Function) map[string]bool {
 		out := map[string]bool{}
+		if wrapped[fn] {
+			out["Lock"], out["Unlock"] = true, true
+		}
 		m.eachCall(fn, func(c ssa.CallInstruction) {
 			if f := c.Common().StaticCallee(); f != nil && f.Pkg != nil && (f.Pkg.Pkg.Path() == "container/list" || f.Pkg.Pkg.Path() == "sync") {
 				out[f.Name()] = true
@@ -1168,6 +1334,48 @@ func (m *Model) ruleQUEUE(r *Results) {
 			}
 		})
 		r.check(lc["Lock"] && lc["Unlock"], rule, m.declName(fn)+" / locked", m.pos(fn.Pos()), "operates under the queue lock", "queue method does not take the queue lock")
+		// ... and every use of the list and every wake-up happens while the lock is held: a
+		// signal sent (or a length read) after the unlock can fall between the puller's test and
+		// its Wait, and is lost
+		unheldIn := map[int]bool{0: !wrapped[fn]}
+		seen := map[int]bool{}
+		bad := ""
+		work := []*ssa.BasicBlock{fn.Blocks[0]}
+		for len(work) > 0 {
+			b := work[len(work)-1]
+			work = work[:len(work)-1]
+			key := b.Index*2 + map[bool]int{false: 0, true: 1}[unheldIn[b.Index]]
+			if seen[key] {
+				continue
+			}
+			seen[key] = true
+			un := unheldIn[b.Index]
+			for _, ins := range b.Instrs {
+				c, ok := ins.(ssa.CallInstruction)
+				if !ok {
+					continue
+				}
+				if op, ok := m.lockOpOf(c); ok {
+					if !op.Deferred {
+						un = !op.Acquire
+					}
+					continue
+				}
+				if _, isDefer := c.(*ssa.Defer); isDefer {
+					continue
+				}
+				if f := c.Common().StaticCallee(); f != nil && f.Pkg != nil && (f.Pkg.Pkg.Path() == "container/list" || f.Pkg.Pkg.Path() == "sync" && (f.Name() == "Signal" || f.Name() == "Broadcast" || f.Name() == "Wait")) && un {
+					bad = f.Name() + " at " + m.instrPos(c)
+				}
+			}
+			for _, s := range b.Succs {
+				if un && !unheldIn[s.Index] {
+					unheldIn[s.Index] = true
+				}
+				work = append(work, s)
+			}
+		}
+		r.check(bad == "", rule, m.declName(fn)+" / list and wake-ups under the lock", m.pos(fn.Pos()), "every list operation and every Signal/Broadcast/Wait happens with the queue lock held", "the queue method calls "+bad+" where the queue lock may not be held: a wake-up sent outside the critical section that changed the list can be lost (the puller then sleeps with an event queued), and the list is read while another goroutine changes it")
 	}
 }
 
